@@ -35,8 +35,16 @@ Inductive constr :=
 | CsPk (k s : bytes)                 (* PublicKey { key_sig }: key bytes, signature bytes *)
 | CsPkh (h k s : bytes)              (* PublicKeyHash { keyhash, key_sig } *)
 | CsHash (kd : ihk) (h p : bytes)    (* HashLock { hash, preimage } *)
-| CsOlder (n : N)                    (* RelativeTimelock *)
+| CsOlder (n : N)                    (* RelativeTimelock; [n] = the script's operand, see [rel_norm] *)
 | CsAfter (n : N).                   (* AbsoluteTimelock *)
+
+(* RelativeTimelock { n: relative::LockTime }: the Older arm converts the script's RelLockTime with
+   `n.into()` (after a deref); a relative::LockTime keeps the type flag (bit 22) and the low 16 bits only, the
+   bits BIP68 / CSV ignore (16..21, 23..30) are dropped.  The model's [CsOlder n] keeps the operand
+   itself and stands for the lock [rel_norm n] the implementation reports: the tie (driver, in-Coq
+   sample) and the oracle compare relative locks through [rel_norm].  Proofs/InterpGenuine.v:
+   [rel_norm_equiv], both denote the same CSV condition. *)
+Definition rel_norm (n : N) : N := N.land n 4259839.      (* SEQ_TYPE lor SEQ_MASK = 0x40ffff *)
 
 (* interpreter::Error, by class *)
 Inductive ierr :=
